@@ -277,48 +277,46 @@ func (c *Ctx) orientRule(rule string) int {
 				parent, child string
 				pos           token.Pos
 			}
-			var conns []conn
 			for _, s := range list {
-				// calls directly in this statement (not in nested blocks)
-				var calls []*ast.CallExpr
-				switch x := s.(type) {
-				case *ast.ExprStmt:
-					if cl, ok := x.X.(*ast.CallExpr); ok {
-						calls = append(calls, cl)
+				var sr *ast.CallExpr
+				if es, ok := s.(*ast.ExprStmt); ok {
+					if cl, ok := es.X.(*ast.CallExpr); ok && isRepoFunc(calleeOf(info, cl), "tree", "Tree", "SetRoot") && len(cl.Args) == 1 {
+						sr = cl
 					}
-				case *ast.AssignStmt:
-					for _, r := range x.Rhs {
-						if cl, ok := unparen(r).(*ast.CallExpr); ok {
-							calls = append(calls, cl)
+				}
+				if sr == nil {
+					continue
+				}
+				r := c.canon(info, sr.Args[0], o)
+				// every ConnectNodes earlier in this list, nested blocks included
+				var conns []conn
+				for _, p := range list {
+					if p.Pos() >= s.Pos() {
+						break
+					}
+					for _, cl := range callsIn(p, false) {
+						if isRepoFunc(calleeOf(info, cl), "tree", "Tree", "ConnectNodes") && len(cl.Args) == 2 {
+							conns = append(conns, conn{c.canon(info, cl.Args[0], o), c.canon(info, cl.Args[1], o), cl.Pos()})
 						}
 					}
 				}
-				for _, cl := range calls {
-					fn := calleeOf(info, cl)
-					switch {
-					case isRepoFunc(fn, "tree", "Tree", "ConnectNodes") && len(cl.Args) == 2:
-						conns = append(conns, conn{c.canon(info, cl.Args[0], o), c.canon(info, cl.Args[1], o), cl.Pos()})
-					case isRepoFunc(fn, "tree", "Tree", "SetRoot") && len(cl.Args) == 1:
-						r := c.canon(info, cl.Args[0], o)
-						for _, cn := range conns {
-							n++
-							key := fmt.Sprintf("%s/ConnectNodes(%s,%s)+SetRoot(%s)", funcName(fi.Obj), cn.parent, cn.child, r)
-							if cn.child != r {
-								c.OK(rule, key, cl.Pos(), "the new root is not the child end of the branch just created")
-								continue
-							}
-							later := false
-							for _, c2 := range callsIn(fi.Decl.Body, false) {
-								if g := calleeOf(info, c2); g != nil && reorients[g.Name()] && c2.Pos() > cl.Pos() {
-									later = true
-								}
-							}
-							if later {
-								c.OK(rule, key, cl.Pos(), "re-oriented afterwards")
-							} else {
-								c.Violation(rule, key, cn.pos, fmt.Sprintf("ConnectNodes(%s, %s) creates a branch pointing from %s to %s, and %s is then made the root with nothing re-orienting the branches: a branch points into the root", cn.parent, cn.child, cn.parent, cn.child, r)).Clause = "every branch pointing away from the root"
-							}
+				for _, cn := range conns {
+					n++
+					key := fmt.Sprintf("%s/ConnectNodes(%s,%s)+SetRoot(%s)", funcName(fi.Obj), cn.parent, cn.child, r)
+					if cn.child != r {
+						c.OK(rule, key, sr.Pos(), "the new root is not the child end of the branch just created")
+						continue
+					}
+					later := false
+					for _, c2 := range callsIn(fi.Decl.Body, false) {
+						if g := calleeOf(info, c2); g != nil && reorients[g.Name()] && c2.Pos() > sr.Pos() {
+							later = true
 						}
+					}
+					if later {
+						c.OK(rule, key, sr.Pos(), "re-oriented afterwards")
+					} else {
+						c.Violation(rule, key, cn.pos, fmt.Sprintf("ConnectNodes(%s, %s) creates a branch pointing from %s to %s, and %s is then made the root with nothing re-orienting the branches: a branch points into the root", cn.parent, cn.child, cn.parent, cn.child, r)).Clause = "every branch pointing away from the root"
 					}
 				}
 			}
